@@ -202,7 +202,7 @@ def run_task(payload):
         net = tuple(tuple(c) for c in net)
         ids = families.rxn_ids(net)
         bnd = [i for i, c in zip(ids, net) if families.is_boundary(c)]
-        for bounds in families.bound_assignments(net, P["d"], P["menu"]):
+        for bounds in families.bound_assignments(net, P["d"] if len(net) <= 3 else 0, P["menu"]):
             for flip, scale in (((), ()), ((bnd[0],), ()), (tuple(bnd), (bnd[-1],)), ((), (bnd[0], ids[-1]))):
                 stats["models"] = stats.get("models", 0) + 1
                 violations.extend(check_model(net, bounds, set(flip), set(scale), stats, payload.get("rich", False)))
